@@ -73,7 +73,12 @@ void harness(void)
 
     env_reset();
     od_defaults();
+#if NE > 8
+    /* large tables (several status bytes): classes and codes concrete, the active set stays symbolic */
+    for (i = 0; i < NE; i++) { od_emcy_tbl[i].Reg = (uint8_t)((i * 3u + 1u) & 7u); od_emcy_tbl[i].Code = (uint16_t)(0x1000u + 0x111u * i); }
+#else
     for (i = 0; i < NE; i++) { od_emcy_tbl[i].Reg = ND_U8() & 7; od_emcy_tbl[i].Code = ND_U16(); }
+#endif
     node_boot();
 #if MODE == 3
     CONmtSetMode(&node.Nmt, CO_OPERATIONAL);
@@ -84,7 +89,7 @@ void harness(void)
 
     /* ---- arbitrary consistent state ---- */
     for (k = 0; k < 8; k++) { e->Cnt[k] = 0; }
-    e->Err[0] = 0;
+    for (i = 0; i < (NE + 7) / 8; i++) { e->Err[i] = 0; }
     for (i = 0; i < NE; i++) {
         m_act[i] = ND_U8() & 1;
         if (m_act[i]) { e->Err[i >> 3] |= (uint8_t)(1u << (i & 7)); e->Cnt[od_emcy_tbl[i].Reg]++; }
